@@ -6,6 +6,7 @@
 -/
 import Model.C01
 import Properties.C09
+import Proofs.C01
 import Proofs.ArithReal
 import Mathlib.Tactic.Positivity
 import Mathlib.Tactic.Linarith
@@ -92,6 +93,47 @@ theorem finalizeSPE_admissible (d : Domain) (o : Oracle) (xs : List (List Rat))
     (hw : d.wf = true) (hs : ∀ i l, ∀ y ∈ o.shuf i l, y ∈ l) (hx : ∀ x ∈ xs, inRelaxed d x = true) :
     ∀ c ∈ finalizeSPE d o xs, admissible d c = true :=
   (decodeAll_admissible d o.shuf o.nb o.ω xs hw hs hx).1
+
+/-! ### Lattice-neighbour candidates stay in the relaxed polytope -/
+
+/-- `generate_neighboring_integer_points` (used only when the domain has no int constraint: the endpoint sets
+    the option to "none" otherwise): every floor/ceil neighbour of a relaxed-polytope point is in the polytope. -/
+theorem neighInt_inRelaxed (d : Domain) (x : List Rat) (hw : d.wf = true) (hic : isIntConstrained d = false)
+    (hx : inRelaxed d x = true) : ∀ y ∈ neighInt d.comps x, inRelaxed d y = true := by
+  intro y hy
+  have hx' := hx
+  simp only [inRelaxed, Bool.and_eq_true, List.all_eq_true, decide_eq_true_eq] at hx'
+  have hlen := inRelaxedBox_length hx'.1
+  obtain ⟨hrel, _, hbox⟩ := (neighInt_on_lattice d.comps x hlen).2 y hy
+  have hwf := hw
+  simp only [Domain.wf, Bool.and_eq_true] at hwf
+  simp only [inRelaxed, Bool.and_eq_true, List.all_eq_true, decide_eq_true_eq]
+  refine ⟨hbox hwf.1 hx'.1, fun c hc => ?_⟩
+  rw [neighbourRel_dot_double d.comps (intFlags d.comps) c.weights x y
+    (cons_double_of_not_intConstrained hw hic c hc) (flagsOnInt_intFlags d.comps) hrel]
+  exact hx'.2 c hc
+
+/-- `generate_neighboring_categorical_points`: replacing categorical blocks by indicator vectors keeps a
+    relaxed-polytope point in the polytope (constraint weights vanish on categorical blocks). -/
+theorem neighCat_inRelaxed (d : Domain) (x : List Rat) (hx : inRelaxed d x = true) :
+    ∀ y ∈ neighCat d.comps x, inRelaxed d y = true := by
+  intro y hy
+  have hx' := hx
+  simp only [inRelaxed, Bool.and_eq_true, List.all_eq_true, decide_eq_true_eq] at hx'
+  have hlen := inRelaxedBox_length hx'.1
+  obtain ⟨hrel, hbox⟩ := (neighCat_on_lattice d.comps x hlen).2 y hy
+  simp only [inRelaxed, Bool.and_eq_true, List.all_eq_true, decide_eq_true_eq]
+  refine ⟨hbox hx'.1, fun c hc => ?_⟩
+  rw [catNeighbourRel_dot d.comps _ x y hrel]
+  exact hx'.2 c hc
+
+/-- option "both": categorical neighbours of integer neighbours -/
+theorem neighBoth_inRelaxed (d : Domain) (x : List Rat) (hw : d.wf = true) (hic : isIntConstrained d = false)
+    (hx : inRelaxed d x = true) : ∀ y ∈ (neighInt d.comps x).flatMap (neighCat d.comps), inRelaxed d y = true := by
+  intro y hy
+  simp only [List.mem_flatMap] at hy
+  obtain ⟨z, hz, hyz⟩ := hy
+  exact neighCat_inRelaxed d z (neighInt_inRelaxed d x hw hic hx z hz) y hyz
 
 /-! ### Count -/
 
